@@ -353,6 +353,11 @@ func c19Tracks(c *fw.Ctx, idx int) {
 				alt = 10000
 			}
 		}
+		if r.Chance(1, 12) {
+			// outside the format's range: must come back clamped to its ends
+			alt = []float64{-1, -0.5, -500, 10000.5, 10001, 12345, 99999, 100000, 1e9, -1e9}[r.Intn(10)]
+			c.Count("altitudes_outside_format_range")
+		}
 		fixes = append(fixes, fix{lon: clampRange(lon, -180, 180), lat: clampRange(lat, -90, 90), alt: alt, t: tt})
 	}
 	for k := range crossings {
